@@ -43,10 +43,30 @@ Target(g, b) ==
 (***************************************************************************)
 CapN == 206
 CapD == 207
-TargetRoundScaled(g, b) ==
+\* Target with the buffers multiplied by n/d, in units of 1/d sub-tick
+TargetScaled(g, b, n, d) ==
   LET o == Bounds(g, FMAXS) IN
-  <<Max(CapD * o[1] - CapN * b[1], 0), Max(CapD * o[2] - CapN * b[2], 0),
-    CapD * o[3] + CapN * b[1], Min(CapD * o[4] + CapN * b[2], CapD * FMAXS)>>
+  <<Max(d * o[1] - n * b[1], 0), Max(d * o[2] - n * b[2], 0), d * o[3] + n * b[1], Min(d * o[4] + n * b[2], d * FMAXS)>>
+TargetRoundScaled(g, b) == TargetScaled(g, b, CapN, CapD)
+
+(***************************************************************************)
+(* Zero frequency buffer at high frequencies.  A zero buffer is            *)
+(* implemented as the scale factor 1e9 (i.e. a buffer of 1e-9).  From      *)
+(* 2^51 / 1e9 = 2.2518 MHz upwards the scaled frequency f * 1e9 has less   *)
+(* than two fraction bits (from 2^52 / 1e9 = 4.5036 MHz none), so the unit *)
+(* circle drawn around a scaled point keeps only heights that are multiples*)
+(* of 1/2 (of 1): the vertices next to the time-axis extreme collapse onto *)
+(* the axis, the flat spike is dropped when the result is clipped, and the *)
+(* polygon reaches only cos(pi/16) = 0.98 (cos(pi/8) = 0.92388) of the time*)
+(* buffer.  Found by this check (not anticipated in DESIGN section 5).     *)
+(* FlatN/FlatD = 23/25 = 0.92 is just below cos(pi/8): a larger shortfall  *)
+(* is a violation of its own.  FlatF = 35185 sub-ticks = 2.2518 MHz.       *)
+(***************************************************************************)
+FlatN == 23
+FlatD == 25
+FlatF == 35185
+FlatCase(g, b) == /\ g.type \notin ClosedKinds /\ b[2] = 0 /\ b[1] > 0
+                  /\ \E v \in Vertices(g) : v[2] >= FlatF
 
 (* ---- limb numbers for targets ---- *)
 \* the rational p/q (p >= 0, 0 < q < 2^15) as a limb number, truncated to 64 fraction bits (exact flag 0 unless it divides)
@@ -57,18 +77,30 @@ LRatDown(p, q) ==
         f3 == (r2 * B16) \div q   r3 == (r2 * B16) % q
         f4 == (r3 * B16) \div q   r4 == (r3 * B16) % q
     IN  <<IF p = 0 THEN 0 ELSE 1, i, f1, f2, f3, f4, IF r4 = 0 THEN 1 ELSE 0>>
-\* slack: observed bounds may miss a target by rounding only.  2^-24 sub-tick (6e-8 sub-tick: 4e-6 Hz, < 3e-8 s)
-\* is about 4000 ulp of the largest coordinate and 10^5 times smaller than the smallest deficit of interest.
-Slack == <<1, 0, 0, 256, 0, 0, 1>>
-\* v + Slack for v >= 0 ; v - Slack (as a lower bound: v - Slack <= x is tested as v <= x + Slack)
-LAddSlack(v) ==
-    LET f2 == v[4] + 256  c2 == f2 \div B16
-        f1 == v[3] + c2    c1 == f1 \div B16
-    IN  <<1, v[2] + c1, f1 % B16, f2 % B16, v[5], v[6], v[7]>>
+(***************************************************************************)
+(* Slack.  Observed bounds may miss a target for two numerical reasons     *)
+(* that the statement cannot mean to exclude:                              *)
+(*  - rounding of scale / unscale / clip: absolute 2^-24 sub-tick          *)
+(*    (4e-6 Hz, < 3e-8 s; about 4000 ulp of the largest coordinate);       *)
+(*  - GEOS joins two offset segments whose ends are closer than 1e-3 of    *)
+(*    the distance by a single point instead of the mitre tip, which costs *)
+(*    up to 1 - cos(1e-3) = 5e-7 of the buffer at an almost straight       *)
+(*    vertex (seen: 3e-8): relative 2^-20 = 9.5e-7 of the buffer.          *)
+(* Both are 4 orders of magnitude below the deficits the findings are      *)
+(* about (0.48 % and 7.6 % of the buffer).                                 *)
+(***************************************************************************)
+SlackFor(b) == <<1, 0, b \div 16, (b % 16) * 4096 + 256, 0, 0, 1>>          \* 2^-24 + b * 2^-20, for 0 <= b < 2^20
+\* sum of two non-negative limb numbers
+LAdd(u, v) ==
+    LET s6 == u[6] + v[6]            c6 == s6 \div B16
+        s5 == u[5] + v[5] + c6       c5 == s5 \div B16
+        s4 == u[4] + v[4] + c5       c4 == s4 \div B16
+        s3 == u[3] + v[3] + c4       c3 == s3 \div B16
+    IN  <<1, u[2] + v[2] + c3, s3 % B16, s4 % B16, s5 % B16, s6 % B16, IF u[7] = 1 /\ v[7] = 1 THEN 1 ELSE 0>>
 LNonNeg(v) == LFinite(v) /\ v[1] >= 0
-\* x <= t + slack   and   x >= t - slack   for an observed x and a non-negative target t (both limb numbers)
-LLeS(x, t) == LFinite(x) /\ LLe(x, LAddSlack(t))
-LGeS(x, t) == LNonNeg(x) /\ LLe(t, LAddSlack(x))
+\* x <= t + slack   and   x >= t - slack   for an observed x and a non-negative target t (limb numbers), slack sl
+LLeS(x, t, sl) == LFinite(x) /\ LLe(x, LAdd(t, sl))
+LGeS(x, t, sl) == LNonNeg(x) /\ LLe(t, LAdd(x, sl))
 
 (* ---- membership of a lattice point in the ORIGINAL geometry (boundary counts) ---- *)
 OnOrIn(g, p) ==
@@ -105,13 +137,15 @@ MonoComparable(b1, b2) == b1 = b2 \/ (Grows(b1[1], b2[1]) /\ Grows(b1[2], b2[2])
 (*              result (exact rational arithmetic on the output coordinates)]*)
 (***************************************************************************)
 Clauses == {"NegativeRejected", "ValidGeometry", "Domain", "Contains", "ExactWidening",
-            "BoundsGrowExact", "BoundsGrowRound", "BoundsGrowRoundStrict", "Monotone"}
+            "BoundsGrowExact", "BoundsGrowRound", "BoundsGrowRoundStrict", "BoundsGrowFlat", "BoundsGrowFlatStrict", "Monotone"}
 
 Good(r) == r.raised = ""
 \* bounds of the result in the sense of compute_bounds (an interval spans all frequencies)
 ObsBounds(r) == IF r.type = "TimeInterval" THEN <<r.coords[1], LInt(0), r.coords[2], LInt(FMAXS)>> ELSE r.bounds
 HasBounds(r) == Good(r) /\ ((r.type = "TimeInterval" /\ Len(r.coords) = 2) \/ (r.type # "TimeInterval" /\ Len(r.bounds) = 4))
-GrowTo(ob, t) == /\ LLeS(ob[1], t[1]) /\ LLeS(ob[2], t[2]) /\ LGeS(ob[3], t[3]) /\ LGeS(ob[4], t[4])
+\* observed bounds ob reach the target t = <<start, low, end, high>> (limb numbers) for buffers b
+GrowTo(ob, t, b) == /\ LLeS(ob[1], t[1], SlackFor(Min(b[1], 1000000))) /\ LLeS(ob[2], t[2], SlackFor(Min(b[2], 1000000)))
+                    /\ LGeS(ob[3], t[3], SlackFor(Min(b[1], 1000000))) /\ LGeS(ob[4], t[4], SlackFor(Min(b[2], 1000000)))
 Exp(g, b) == BufClosed(g, b).coordinates
 
 RunHolds(cl, g, b, probes, r) ==
@@ -132,12 +166,18 @@ RunHolds(cl, g, b, probes, r) ==
             /\ r.type = BufClosed(g, b).type
             /\ Len(r.coords) = Len(Exp(g, b))
             /\ \A i \in 1..Len(r.coords) : LEq(r.coords[i], LInt(Exp(g, b)[i]))
-      [] cl = "BoundsGrowExact" -> (~Negative(b) /\ HasBounds(r) /\ g.type \notin RoundKinds) =>
-            LET t == Target(g, b) IN GrowTo(ObsBounds(r), [i \in 1..4 |-> LInt(t[i])])
-      [] cl = "BoundsGrowRound" -> (~Negative(b) /\ HasBounds(r) /\ g.type \in RoundKinds) =>
-            LET t == TargetRoundScaled(g, b) IN GrowTo(ObsBounds(r), [i \in 1..4 |-> LRatDown(t[i], CapD)])
-      [] cl = "BoundsGrowRoundStrict" -> (~Negative(b) /\ HasBounds(r) /\ g.type \in RoundKinds) =>
-            LET t == Target(g, b) IN GrowTo(ObsBounds(r), [i \in 1..4 |-> LInt(t[i])])
+      [] cl = "BoundsGrowExact" -> (~Negative(b) /\ HasBounds(r) /\ g.type \notin RoundKinds /\ ~FlatCase(g, b)) =>
+            LET t == Target(g, b) IN GrowTo(ObsBounds(r), [i \in 1..4 |-> LInt(t[i])], b)
+      \* line strings: a shortfall beyond the inscribed-polygon bound is a violation; any shortfall at all is finding F16
+      [] cl = "BoundsGrowRound" -> (~Negative(b) /\ HasBounds(r) /\ g.type \in RoundKinds /\ ~FlatCase(g, b)) =>
+            LET t == TargetRoundScaled(g, b) IN GrowTo(ObsBounds(r), [i \in 1..4 |-> LRatDown(t[i], CapD)], b)
+      [] cl = "BoundsGrowRoundStrict" -> (~Negative(b) /\ HasBounds(r) /\ g.type \in RoundKinds /\ ~FlatCase(g, b)) =>
+            LET t == Target(g, b) IN GrowTo(ObsBounds(r), [i \in 1..4 |-> LInt(t[i])], b)
+      \* zero frequency buffer at frequencies >= 2.25 MHz (any shapely kind): same split, bound 1 - cos(pi/8)
+      [] cl = "BoundsGrowFlat" -> (~Negative(b) /\ HasBounds(r) /\ FlatCase(g, b)) =>
+            LET t == TargetScaled(g, b, FlatN, FlatD) IN GrowTo(ObsBounds(r), [i \in 1..4 |-> LRatDown(t[i], FlatD)], b)
+      [] cl = "BoundsGrowFlatStrict" -> (~Negative(b) /\ HasBounds(r) /\ FlatCase(g, b)) =>
+            LET t == Target(g, b) IN GrowTo(ObsBounds(r), [i \in 1..4 |-> LInt(t[i])], b)
 
 Holds(cl, o) ==
     LET c == o.in IN
